@@ -268,12 +268,15 @@ class Run:
         for f in listed:
             print(f"KNOWN-FINDING: property={self.prop} {kn[f.key].get('what', f.message)}")
         lines = []
-        for f in new:
+        for i, f in enumerate(new):
             path = os.path.join(fdir, f.slug + '.json')
             with open(path, 'w') as fh:
-                json.dump(f.to_json(), fh, indent=1)
+                json.dump(f.to_json(), fh, indent=1, default=str)
             loc = f"{self.repo.relfile(f.file) if f.file else '?'}:{f.line}"
-            print(f"  [{f.rule}] {loc} {f.where}: {f.message}\n      construct: {f.construct}")
+            if i < 12:
+                print(f"  [{f.rule}] {loc} {f.where}: {f.message[:420]}\n      construct: {f.construct}")
+            elif i == 12:
+                print(f"  ... {len(new) - 12} more finding(s), see the replay files")
             lines.append(f"VIOLATION property={self.prop} replay={path}")
         wall = time.time() - self.t0
         ev = {
